@@ -83,7 +83,7 @@ PROPS.update({
                design_ref='DESIGN.md 3/C12', level='exploration',
                technique='bounded exploration of the real client state machine (stand-in) + Verus function contracts on the lifecycle decision table'),
     'C14': _ev(['protocol'], 'Proof of service_keep_alive (deadline = now + min(ping timeout, K*500ms), next ping = now + K s, one PINGREQ at the front), handle_connack (first ping), '
-               'handle_pingresp, and that completion only ever moves the next ping later.', design_ref='DESIGN.md 3/C14'),
+               'handle_pingresp, that completion only ever moves the next ping later, and that no handler of received traffic touches the ping schedule (PUBLISH / PUBREL / DISCONNECT / AUTH: unchanged; acks: only the completion rule).', design_ref='DESIGN.md 3/C14'),
     'C15': _ev(['protocol'], 'Proof that does_packet_pass_offline_queue_policy equals the policy table for every packet kind x policy, and that submission while not connected / close of the '
                'current operation apply it; the other positions at close are bounded (E-B).', design_ref='DESIGN.md 3/C15'),
     'C18': _ev(['protocol'], 'Proof that the ack timeout is armed only when the packet is fully written, for exactly now+T, and that process_ack_timeouts fails exactly the operations whose '
@@ -114,11 +114,11 @@ PROPS.update({
                'validate_subscribe_packet_outbound(_internal), is_valid_topic_filter_internal, and the length helpers they use.', design_ref='DESIGN.md 3/C16',
                technique='Verus function contracts in both directions (Ok <=> the rules hold) on the extracted outbound validation functions + Verus/Kani contracts on the negotiated-settings table',
                level_note=TRUST_COMMON + ' Topic / filter grammar functions (is_valid_topic, compute_topic_filter_properties) and validate_string_length are assumed contracts here, examined by E-K (bounded).'),
-    'C13': _ev(['ws'], 'Mostly BOUNDED: the two drivers are async / threaded code that no contract within reach can express (task and thread interleavings, select!, channels); the property is '
+    'C13': _ev(['ws', 'codec'], 'Mostly BOUNDED: the two drivers are async / threaded code that no contract within reach can express (task and thread interleavings, select!, channels); the property is '
                'decided by bounded executable checks of the REAL tokio and threaded clients over scripted transports (partial writes, Pending / WouldBlock patterns, resets, reconnect, operations '
                'around close) and of the websocket wrapper with real tungstenite - stand-ins with stated bounds, never counted as proved. Proved (unbounded, Verus): MessageCursor::read hands over '
-               'the next min(remaining, dest.len()) payload bytes in order exactly once.', design_ref='DESIGN.md 3/C13', level='exploration',
-               technique='bounded executable checks of the real drivers over scripted transports (stand-in) + Verus function contract on the websocket message cursor',
+               'the next min(remaining, dest.len()) payload bytes in order exactly once; and the engine side of the byte hand-over: Encoder::encode appends exactly flat(steps) whatever the buffer sizes (codec unit).', design_ref='DESIGN.md 3/C13', level='exploration',
+               technique='bounded executable checks of the real drivers over scripted transports (stand-in) + Verus function contracts on the websocket message cursor and on the encoder step interpreter',
                level_note=TRUST_COMMON + ' tungstenite Message / WebSocket are shims.'),
     'C17': _ev(['alias', 'protocol'], 'Unbounded proofs for the inbound resolver (empty topic -> bound topic or error; 0 / out-of-range -> error; reset empties), the manual and null outbound resolvers '
                '(skip-topic only for an alias currently bound to exactly that topic; alias in 1..=max; table updated exactly when an alias is sent with its topic), and that the engine resets both at CONNACK. '
